@@ -182,6 +182,26 @@ def part_dispatch(ctx, drv):
                 gg = {'empty-or-default': mm, 'lib:UnknownDatabaseError': 'default'}.get(got, got)
                 if mm != gg:
                     ctx.diverge('renderer dispatch outcome', reqs[i], m, got)
+        # elements deleted from a database configured with custom renderers are detached again
+        RS, RD = make_renderer(KINDS[:], 'S'), make_renderer(KINDS[:], 'D')
+        db = PyDBML(SRC, sql_renderer=RS, dbml_renderer=RD)
+        victims = {'table': db.tables[1], 'enum': db.enums[0], 'reference': db.refs[-1], 'group': db.table_groups[0],
+                   'project': db.project, 'sticky': db.sticky_notes[0]}
+        db.delete(db.table_groups[0])
+        for kind in ('reference', 'sticky', 'project', 'enum'):
+            db.delete(victims[kind])
+        for r in list(db.refs):
+            db.delete(r)
+        db.delete(victims['table'])
+        for kind, el in victims.items():
+            for sql in (True, False):
+                if sql and kind in DBML_ONLY:
+                    continue
+                out = O.run(lambda: el.sql if sql else el.dbml)
+                ctx.case(core.h(['deleted', kind, sql]), True)
+                if out == ('ok', f'<{"S" if sql else "D"}:{kind}>'):
+                    ctx.fail(f'a {kind} deleted from the database still renders through the database\'s configured renderer',
+                             {'op': 'deleted-element', 'kind': kind, 'sql': sql})
     finally:
         shutil.rmtree(tmpdir, ignore_errors=True)
 
